@@ -3,6 +3,7 @@ package main
 import (
 	"fmt"
 	"go/token"
+	"regexp"
 	"sort"
 	"strings"
 
@@ -548,14 +549,38 @@ func runC08(r *Run) {
 				ok = ok && strings.Contains(v, "Header:p3.RoundView.ProposedHeaders[@slices.IndexFunc(p3.RoundView.ProposedHeaders,closure:") && strings.Contains(v, "Round:p3.RoundView.Round") && strings.Contains(v, "Resp:p2.FinalizeRespCh")
 				e, _ := a.IfEdges("(@slices.IndexFunc(p3.RoundView.ProposedHeaders,$c) < 0)", false, nil)
 				ok = ok && len(e) > 0 && a.EveryPathTakes(s.Instr, e)
-				// the closure compares the header hash with the most-voted precommit hash of the same view
+				// the very closure that selects the header for this request compares the header's hash
+				// with the most-voted PRECOMMIT hash of the same view (p3) whose headers are searched
 				okClosure := false
-				for _, an := range fn.AnonFuncs {
-					aa := w.A(an)
-					for _, ret := range aa.Returns() {
-						rs := aa.sh.Of(ret.Results[0]).String()
-						if strings.Contains(rs, "p0.Header.Hash") && strings.Contains(rs, "MostVotedPrecommitHash") {
-							okClosure = true
+				if m := regexp.MustCompile(`p3\.RoundView\.ProposedHeaders\[@slices\.IndexFunc\(p3\.RoundView\.ProposedHeaders,closure:([^)\]]+)\)\]`).FindStringSubmatch(v); m != nil {
+					if cf := w.Fn(m[1]); cf != nil {
+						aa := w.A(cf)
+						rets := aa.Returns()
+						okClosure = len(rets) > 0
+						for _, ret := range rets {
+							rs := aa.sh.Of(ret.Results[0]).String()
+							mm := regexp.MustCompile(`^\((?:p0\.Header\.Hash == \^(\w+)\.RoundView\.VoteSummary\.MostVotedPrecommitHash|\^(\w+)\.RoundView\.VoteSummary\.MostVotedPrecommitHash == p0\.Header\.Hash)\)$`).FindStringSubmatch(rs)
+							if mm == nil {
+								okClosure = false
+								continue
+							}
+							fv := mm[1] + mm[2]
+							// the captured variable is the view parameter itself
+							bound := false
+							a.Instrs(func(in ssa.Instruction) {
+								mc, isMC := in.(*ssa.MakeClosure)
+								if !isMC || mc.Fn != ssa.Value(cf) {
+									return
+								}
+								for j, f := range cf.FreeVars {
+									if f.Name() == fv && j < len(mc.Bindings) && a.sh.load(mc.Bindings[j]).String() == "p3" {
+										bound = true
+									}
+								}
+							})
+							if !bound {
+								okClosure = false
+							}
 						}
 					}
 				}
